@@ -4092,6 +4092,31 @@ int EGLPNUM_TYPENAME_ILLlib_readbasis (
 		ILL_CLEANUP;
 	}
 
+	/* exactly one basic variable per row; the logical of a non-ranged row has
+	 * a single bound, so "at upper" can only mean non-basic at that bound */
+	{
+		int nbas = 0;
+
+		for (j = 0; j < nstruct; j++)
+		{
+			if (B->cstat[j] == QS_COL_BSTAT_BASIC)
+				nbas++;
+		}
+		for (i = 0; i < nrows; i++)
+		{
+			if (B->rstat[i] == QS_ROW_BSTAT_BASIC)
+				nbas++;
+			else if (B->rstat[i] == QS_ROW_BSTAT_UPPER && qslp->sense[i] != 'R')
+				B->rstat[i] = QS_ROW_BSTAT_LOWER;
+		}
+		if (nbas != nrows)
+		{
+			rval = EGLPNUM_TYPENAME_ILLmps_error (&state,
+												 "BASIS has %d basic variables for %d rows\n", nbas, nrows);
+			ILL_CLEANUP;
+		}
+	}
+
 	/* Correct the free variables */
 
 	for (j = 0; j < nstruct; j++)
